@@ -113,6 +113,9 @@ def oracle(case, rec, an, streams, mb):
 
         try:
             got = K.evaluate(out, feed_out, npu_executor=npu_exec)
+        except X.StreamDefect as e:
+            viol.append(("weight-stream-mismatch", str(e)))
+            break
         except (X.Unsupported, K.Unsupported) as e:
             stats["unjudged"] += 1
             stats["why_unjudged:executor:%s" % str(e)[:40]] = 1
